@@ -228,6 +228,20 @@ def _diff_one(sk, r, tier, rec):
                 posb = tuple(b.id_manager.bounds[i])
                 if gotb != wantb or posb != wantb:
                     bad('bounds-attached-to-wrong-parameter', f'bounds of {nm} (orig {o}): by name {gotb}, by position {posb}, expected {wantb}')
+            # dictionary -> list conversion offered to users: values by name, in the reported (sorted) order, whatever the
+            # insertion order of the dictionary; without a dictionary: the values the parameters have now
+            try:
+                given = {mapping[o]: POINT[o] for o in reversed(free_orig)}
+                lst = [float(v) for v in b.beta_values_dict_to_list(dict(given))]
+                lst0 = [float(v) for v in b.beta_values_dict_to_list()]
+            except Exception as e:
+                bad(f'beta_values_dict_to_list-raised-{type(e).__name__}', str(e)[:200])
+            else:
+                if lst != [POINT[inv[nm]] for nm in names]:
+                    bad('dictionary-to-list-not-by-name', f'beta_values_dict_to_list({given}) = {lst} for names {names}')
+                if lst0 != [ORIG[inv[nm]] for nm in names]:
+                    bad('dictionary-to-list-not-by-name', f'beta_values_dict_to_list() = {lst0}; current values by name '
+                        f'{[ORIG[inv[nm]] for nm in names]} for names {names}')
             # simulate with a full dictionary (insertion order of the dictionary = reverse sorted, irrelevant by statement)
             full = {mapping[o]: POINT[o] for o in reversed(free_orig)}
             try:
